@@ -14,10 +14,11 @@ import (
 	"verifharness/hx"
 )
 
-const Rule = "cases = (tree kind bst|avl|rb, comparator asc|desc, op sequence) drawn from VERIF_SEED: key universes of " +
+const Rule = "cases = (tree kind bst|avl|rb, comparator asc|desc|a-b|7*(a-b)|b-a, op sequence) drawn from VERIF_SEED: key universes of " +
 	"3-16 ints so that duplicates, absent keys and rotations are dense; all five mutators (Put, Delete, DeleteMin, " +
 	"DeleteMax, DeleteAll) mixed with every query, query arguments in [-1,U] (absent and boundary keys), two tables per " +
-	"case (swap) so that Equal/SelectMatch/PartitionMatch operands come from histories; every state-changing call also " +
+	"case (swap) so that Equal/SelectMatch/PartitionMatch operands come from histories; returned slices and tables are " +
+	"scribbled on / mutated (aliasing probes after SelectMatch/PartitionMatch in both directions); every state-changing call also " +
 	"prints the internal tree (sizes, heights, colours) for the comparison with the Lean Model; " +
 	"non-trivial = the history performed at least one rotation/restructuring (tree shape after a Put or Delete differs " +
 	"from the plain BST result) or deleted a node with two children; distinct = distinct (header, op list)"
@@ -37,6 +38,15 @@ func CmpAsc(a, b int) int {
 }
 
 func CmpDesc(a, b int) int { return CmpAsc(b, a) }
+
+// comparators that do not return -1/0/+1: code that tests `== -1` / `== 1` instead of the sign is exposed
+func CmpDiff(a, b int) int  { return a - b }
+func CmpDiff7(a, b int) int { return 7 * (a - b) }
+func CmpRDiff(a, b int) int { return b - a }
+
+var Cmps = map[string]func(int, int) int{"asc": CmpAsc, "desc": CmpDesc, "diff": CmpDiff, "diff7": CmpDiff7, "rdiff": CmpRDiff}
+
+var CmpNames = []string{"asc", "desc", "diff", "diff7", "rdiff"}
 
 func eqInt(a, b int) bool { return a == b }
 
@@ -250,8 +260,8 @@ type Machine struct {
 
 func NewMachine(header string) *Machine {
 	m := &Machine{Comp: hx.HeaderGet(header, "comp"), Cmp: CmpAsc, Dump: hx.HeaderGet(header, "dump") == "1"}
-	if hx.HeaderGet(header, "cmp") == "desc" {
-		m.Cmp = CmpDesc
+	if c, ok := Cmps[hx.HeaderGet(header, "cmp")]; ok {
+		m.Cmp = c
 	}
 	m.A, m.B = NewTable(m.Comp, m.Cmp), NewTable(m.Comp, m.Cmp)
 	m.OA, m.OB = &Oracle{cmp: m.Cmp}, &Oracle{cmp: m.Cmp}
@@ -446,6 +456,12 @@ func ExecWith(c hx.Case, hook Hook, shapeTags bool) hx.Result {
 				if w := m.OA.Range(atoi(f[1]), atoi(f[2])); !sameKVs(got, w) {
 					bad("= %v, want %v", got, w)
 				}
+				// the caller owns the returned slice: scribble on it (and grow it), later calls must not notice
+				for j := range kvs {
+					kvs[j] = generic.KeyValue[int, int]{Key: -999, Val: -999}
+				}
+				kvs = append(kvs, generic.KeyValue[int, int]{Key: -998, Val: -998})
+				_ = kvs
 			case "rangesize":
 				n := m.A.RangeSize(atoi(f[1]), atoi(f[2]))
 				out = "ok " + strconv.Itoa(n)
@@ -457,6 +473,34 @@ func ExecWith(c hx.Case, hook Hook, shapeTags bool) hx.Result {
 				out = "ok " + showKVs(got)
 				if !sameKVs(got, m.OA.kvs) {
 					bad("= %v, want %v", got, m.OA.kvs)
+				}
+			case "alluntil":
+				limit := atoi(f[1])
+				var got []KV
+				for k, v := range m.A.All() {
+					got = append(got, KV{k, v})
+					if limit != 0 && len(got) >= limit {
+						break
+					}
+				}
+				out = "ok " + showKVs(got)
+				if w := takeLim(limit, m.OA.kvs); !sameKVs(got, w) {
+					bad("= %v, want %v", got, w)
+				}
+			case "equalother":
+				// a table of another implementation type holding exactly the same pairs: Equal answers false
+				other := NewTable(otherKind(m.Comp), m.Cmp)
+				for _, e := range m.OA.kvs {
+					other.Put(e.K, e.V)
+				}
+				e := m.A.Equal(other)
+				out = "ok " + strconv.FormatBool(e)
+				if e {
+					bad("= true for a table of type %s", otherKind(m.Comp))
+				}
+				// nor for an unordered table
+				if ht := symboltable.NewChainHashTable[int, int](func(k int) uint64 { return uint64(k) }, eqInt, eqInt, symboltable.HashOpts{}); m.A.Equal(ht) {
+					bad("= true for a hash table")
 				}
 			case "traverse":
 				order, known := orders[f[1]]
@@ -560,6 +604,14 @@ func ExecWith(c hx.Case, hook Hook, shapeTags bool) hx.Result {
 					if !sameKVs(gm, yes) || !sameKVs(gu, no) {
 						bad("= %v %v, want %v %v", gm, gu, yes, no)
 					}
+					// the unmatched table is the caller's: use it up; receiver and matched table must not notice
+					ut.Put(-7, -7)
+					ut.(Table).DeleteMin()
+					for _, e := range no {
+						ut.Put(e.K, e.V+100)
+					}
+					ut.(Table).DeleteMax()
+					ut.DeleteAll()
 				}
 			case "dump":
 				out = "ok " + symboltable.VerifDump[int, int](m.A)
@@ -582,6 +634,16 @@ func ExecWith(c hx.Case, hook Hook, shapeTags bool) hx.Result {
 	}
 	sort.Strings(res.Tags)
 	return res
+}
+
+func otherKind(comp string) string {
+	switch comp {
+	case "bst":
+		return "avl"
+	case "avl":
+		return "rb"
+	}
+	return "bst"
 }
 
 // ---------------------------------------------------------------- tree shapes (from VerifDump or from traversals)
@@ -867,8 +929,14 @@ func GenOps(r *hx.Rand, n, u int) []string {
 			ops = append(ops, fmt.Sprintf("range %d %d", arg(), arg()))
 		case x < 86:
 			ops = append(ops, fmt.Sprintf("rangesize %d %d", arg(), arg()))
-		case x < 88:
+		case x < 87:
 			ops = append(ops, "all")
+		case x < 88:
+			if r.Chance(1, 3) {
+				ops = append(ops, "equalother")
+			} else {
+				ops = append(ops, fmt.Sprintf("alluntil %d", r.Range(0, u)))
+			}
 		case x < 92:
 			lim := 0
 			if r.Chance(1, 2) {
@@ -883,10 +951,22 @@ func GenOps(r *hx.Rand, n, u int) []string {
 			ops = append(ops, "allmatch "+predText(r, u))
 		case x < 97:
 			ops = append(ops, "firstmatch "+predText(r, u))
-		case x < 98:
-			ops = append(ops, "selectmatch "+predText(r, u))
 		case x < 99:
-			ops = append(ops, "partitionmatch "+predText(r, u))
+			// a derived table, then an aliasing probe: mutate the result, look at the receiver; mutate the
+			// receiver, look at the result (a result sharing nodes with its receiver shows up here)
+			if x < 98 {
+				ops = append(ops, "selectmatch "+predText(r, u))
+			} else {
+				ops = append(ops, "partitionmatch "+predText(r, u))
+			}
+			if r.Chance(2, 3) {
+				ops = append(ops, "swap", fmt.Sprintf("put %d %d", key(), 10+r.Intn(10)), fmt.Sprintf("delete %d", arg()),
+					hx.Pick(r, []string{"deletemin", "deletemax", fmt.Sprintf("put %d 77", key())}),
+					"swap", "all", "size", "dump",
+					fmt.Sprintf("put %d %d", key(), 20+r.Intn(10)), fmt.Sprintf("delete %d", arg()),
+					hx.Pick(r, []string{"deletemin", "deletemax", "deleteall"}),
+					"swap", "all", "size", "dump", "swap")
+			}
 		default:
 			ops = append(ops, "dump")
 		}
@@ -927,9 +1007,9 @@ func Main(run *hx.Run) {
 		}
 	}
 	for _, comp := range Comps {
-		for _, cmp := range []string{"asc", "desc"} {
+		for _, cmp := range CmpNames {
 			r := run.R.Fork(comp + "/" + cmp)
-			n := run.Scale(400)
+			n := run.Scale(160)
 			for k := 0; k < n; k++ {
 				u := r.Range(3, 16)
 				length := 60
